@@ -338,8 +338,77 @@ def master_part(ctx, rp):
                    'every task handed on once, DONE iff exit code 0' % n, 'tie', True, '')
 
 
+def run_agent_intake(rp, bulk):
+    """the real Agent_0._proxy_input_cb on one bulk from the client: ordinary tasks and service tasks; a service comes up
+    ('up'), or does not within its startup timeout ('down': _launch_service_task raises).  Returns which tasks were
+    pushed into the agent's pipeline how often, and whether the callback raised."""
+    from props import c14
+    from radical.pilot.agent.agent_0 import Agent_0
+    import threading as mt
+    a = c14.make_agent(rp, '.')
+    a._service_lock = mt.RLock()
+    a._service_uid_launched = None
+    class _Reg(dict):
+        def get(self, k, d=None): return dict.get(self, k, d)
+    a._reg = _Reg()
+    a._session.rcfg = {}
+    if not isinstance(getattr(Agent_0, 'session', None), property):
+        Agent_0.session = property(lambda self: self._session)
+    up = {t['uid']: t['service'] == 'up' for t in bulk if t.get('service')}
+    class _Evt(object):
+        def clear(self): pass
+        def set(self): pass
+        def wait(self, timeout=None): return up.get(a._service_uid_launched, True)
+    a._service_start_evt = _Evt()
+    pushed = {}
+    def advance(things, state=None, publish=True, push=False, **kw):
+        for t in (things if isinstance(things, list) else [things]):
+            if push: pushed[t['uid']] = pushed.get(t['uid'], 0) + 1
+    a.advance = advance
+    msg = []
+    for t in bulk:
+        d = {'executable': '/bin/true', 'arguments': [], 'uid': t['uid']}
+        if t.get('service'):
+            d.update({'mode': 'task.service', 'startup_timeout': 1})
+        msg.append({'uid': t['uid'], 'state': t['state'], 'description': d})
+    err = None
+    try:
+        a._proxy_input_cb(msg)
+    except Exception as e:
+        err = type(e).__name__
+    return pushed, err
+
+
+def agent_intake_part(ctx, rp):
+    rng = ctx.rng
+    n = 0
+    for _ in range(ctx.n(60, 2000)):
+        bulk = []
+        for k in range(rng.randint(1, 5)):
+            t = {'uid': 'task.%06d' % k, 'state': rng.choice(['AGENT_STAGING_INPUT_PENDING'] * 5 + ['NEW'])}
+            if rng.random() < 0.3: t['service'] = rng.choice(['up', 'down'])
+            bulk.append(t)
+        pushed, err = run_agent_intake(rp, bulk)
+        n += 1
+        ctx.case({'agent_intake': bulk}, nontrivial=any(t.get('service') == 'down' for t in bulk))
+        for t in bulk:
+            owned = t['state'] == 'AGENT_STAGING_INPUT_PENDING'
+            if owned and not t.get('service') and pushed.get(t['uid'], 0) != 1:
+                ctx.fail('agent-intake:task-of-the-bulk-not-taken-into-the-pipeline',
+                         '%s arrived with the bulk %s and was pushed %d times (the callback ended with %s): it never reaches a final state'
+                         % (t['uid'], [(x['uid'], x.get('service', 'task')) for x in bulk], pushed.get(t['uid'], 0), err or 'no error'),
+                         {'kind': 'agent_intake', 'bulk': bulk})
+                break
+            if not owned and pushed.get(t['uid'], 0):
+                ctx.fail('agent-intake:task-in-another-state-taken', '%s in state %s was pushed' % (t['uid'], t['state']), {'kind': 'agent_intake', 'bulk': bulk})
+                break
+    ctx.obligation('real Agent_0._proxy_input_cb on bulks of tasks and services (some of which do not come up): every task of the bulk the '
+                   'agent owns enters the pipeline exactly once (%d bulks)' % n, 'tie', True, '')
+
+
 def run(ctx):
     rp  = rpload.load()
+    agent_intake_part(ctx, rp)
     rng = ctx.rng
     master_part(ctx, rp)
     exec_part(ctx, rp)
@@ -452,6 +521,11 @@ def replay(ctx, data):
             print('raised', repr(e)); return False
         print('handed on:', handed)
         return handed == [('task.%06d' % k, 'DONE' if c == 0 else 'FAILED') for k, c in enumerate(i['codes'])]
+    if i.get('kind') == 'agent_intake':
+        pushed, err = run_agent_intake(rp, i['bulk'])
+        print(pushed, err)
+        return all(pushed.get(t['uid'], 0) == (1 if t['state'] == 'AGENT_STAGING_INPUT_PENDING' else 0)
+                   for t in i['bulk'] if not t.get('service'))
     if 'timeout_watcher' in i:
         from props import timeoutsuite
         return timeoutsuite.replay(ctx, data, 'C05')
